@@ -546,6 +546,11 @@ func everyIterationPasses(c *eng.Ctx, fn *ssa.Function, s eng.Site, sub, want st
 		// (inside the helper the site must then be passed on every path to a normal return)
 		top := eng.TopOf(fn, s)
 		g := s.Instr.Parent()
+		if g != nil && innermostLoop(g, s.Instr.Block()) != nil {
+			// the loop itself moved into the helper: judged there
+			everyIterationPasses(c, g, s, sub, want)
+			return
+		}
 		if top == nil || g == nil {
 			c.Check(false, sub, s.Instr, fn, want, "the site is not written in the loop's function body (unrecognised shape)")
 			return
@@ -1077,4 +1082,29 @@ func keepsAccumulator(p *eng.Prog, v ssa.Value, isAcc func(ssa.Value) bool, dept
 		}
 	}
 	return n > 0
+}
+
+// topsOf: the instructions of root's own body through which the (transparently found) instruction in is reached: in itself
+// when it lies in root, otherwise every call of root whose transparent callee (transitively) contains it. Unlike eng.TopOf
+// a helper used at several sites yields all of them.
+func topsOf(root *ssa.Function, in ssa.Instruction) []ssa.Instruction {
+	if in.Parent() == root {
+		return []ssa.Instruction{in}
+	}
+	var out []ssa.Instruction
+	for _, b := range root.Blocks {
+		for _, ci := range b.Instrs {
+			g := eng.TransparentCallee(ci)
+			if g == nil {
+				continue
+			}
+			for _, gb := range eng.BlocksT(g) {
+				if gb == in.Block() {
+					out = append(out, ci)
+					break
+				}
+			}
+		}
+	}
+	return out
 }
